@@ -177,24 +177,56 @@ U_addmember = Unit(OOB, 'add_member', cls='RelationMemberListBuilder', cname='Bu
                         (r'if \(full_member\) \{\s*add_item\(\*full_member\);\s*\}', '/* full member copy: not part of this unit (precondition full_member == NULL) */')],
                    params=['item_type type', 'object_id_type ref', 'const char* role', 'const size_t role_length', 'const void* full_member'])
 BUILDER_CORE = [U_ibytes, U_iaddsz, U_itempos, U_item, U_bres, U_bsize, U_bpad, U_bapp0]
-BLD_REQ = ('verif_exc == 0 && __CPROVER_is_fresh(self, sizeof(*self)) && __CPROVER_is_fresh(self->m_buffer, sizeof(struct Buffer)) && WFB(self->m_buffer) && '
-           '__CPROVER_is_fresh(self->m_buffer->m_data, self->m_buffer->m_capacity) && self->m_parent == 0 && '
-           'self->m_buffer->m_committed % 8 == 0 && self->m_item_offset % 8 == 0 && self->m_buffer->m_committed + self->m_item_offset + 64 <= self->m_buffer->m_written')
-BLD_MAYTHROW = {'Buffer_reserve_space': False, 'Builder_reserve_space': False, 'Builder_append_with_zero': False, 'Builder_add_role': True, 'Builder_add_padding': True, 'Builder_add_user': True, 'Builder_add_text': True}
-PIPELINES.append(Pipeline('U10_RelationMemberListBuilder_add_member', units=BUILDER_CORE + [U_setrole, U_rmctor, U_addrole, U_addmember], prelude=bld_prelude(None),
-                          contracts={'Builder_add_member': [
-                              ('pre:an open member-list builder on a valid buffer; the memory may move at any reservation', 'requires', BLD_REQ + ' && role_length <= 100000 && __CPROVER_is_fresh(role, role_length + 1) && full_member == 0 && self->m_buffer->m_written % 8 == 0 && ghost_keep == self->m_buffer->m_written'),
-                              ('post:exception class', 'ensures', 'verif_exc == 0 || verif_exc == EXC_length_error || verif_exc == EXC_buffer_is_full'),
-                              ('post:too long roles are rejected', 'ensures', '!(role_length > 1024) || verif_exc != 0'),
-                              ('post:the member written into the CURRENT buffer memory carries the role length (what the reader uses to find the next member)', 'ensures',
-                               'verif_exc != 0 || ((RelationMember*)(self->m_buffer->m_data + __CPROVER_old(self->m_buffer->m_written)))->m_role_size == (string_size_type)(role_length + 1)'),
-                              ('post:and its reference and type', 'ensures',
-                               'verif_exc != 0 || (((RelationMember*)(self->m_buffer->m_data + __CPROVER_old(self->m_buffer->m_written)))->m_ref == ref && ((RelationMember*)(self->m_buffer->m_data + __CPROVER_old(self->m_buffer->m_written)))->m_type == type)'),
+KEEP16 = ' && '.join('self->m_buffer->m_data[ghost_keep + %d] == __CPROVER_old(self->m_buffer->m_data[ghost_keep + %d])' % (k, k) for k in range(16))
+# contracts of the Builder operations that the list builders call; each may move the buffer memory (they reserve space);
+# what was written before stays where it was relative to the start of the memory (observed at the 16-byte ghost window)
+BLD_STUBS = """
+#define BLD_OK(b) (__CPROVER_rw_ok(b, sizeof(struct Builder)) && __CPROVER_rw_ok((b)->m_buffer, sizeof(struct Buffer)) && WFB((b)->m_buffer) && __CPROVER_rw_ok((b)->m_buffer->m_data, (b)->m_buffer->m_capacity) && \\
+   (b)->m_buffer->m_committed + (b)->m_item_offset + sizeof(Item) <= ghost_keep && ghost_keep + 16 <= (b)->m_buffer->m_written)
+#define MOVED_OR_SAME(b) (((b)->m_buffer->m_data == __CPROVER_old((b)->m_buffer->m_data) && (b)->m_buffer->m_capacity == __CPROVER_old((b)->m_buffer->m_capacity)) || \\
+   (__CPROVER_is_fresh((b)->m_buffer->m_data, (b)->m_buffer->m_capacity) && (b)->m_buffer->m_capacity >= __CPROVER_old((b)->m_buffer->m_capacity)))
+item_size_type Builder_append_with_zero_c(struct Builder* self, const char* data, item_size_type length)
+__CPROVER_requires(verif_exc == 0 && BLD_OK(self) && length <= 100000 && __CPROVER_r_ok(data, length))
+__CPROVER_assigns(verif_exc, self->m_buffer->m_data, self->m_buffer->m_capacity, self->m_buffer->m_written, __CPROVER_object_from(self->m_buffer->m_data + self->m_buffer->m_written))
+__CPROVER_ensures(verif_exc == 0 || verif_exc == EXC_buffer_is_full)
+__CPROVER_ensures(verif_exc != 0 || (MOVED_OR_SAME(self) && WFB(self->m_buffer) && self->m_buffer->m_written == __CPROVER_old(self->m_buffer->m_written) + length + 1 && __CPROVER_return_value == length + 1 && (@KEEP16@)))
+__CPROVER_ensures(verif_exc == 0 || (self->m_buffer->m_data == __CPROVER_old(self->m_buffer->m_data) && self->m_buffer->m_written == __CPROVER_old(self->m_buffer->m_written)))
+;
+void Builder_add_padding_c(struct Builder* self, bool self_flag)
+__CPROVER_requires(verif_exc == 0 && BLD_OK(self))
+__CPROVER_assigns(verif_exc, self->m_buffer->m_data, self->m_buffer->m_capacity, self->m_buffer->m_written, __CPROVER_object_from(self->m_buffer->m_data + self->m_buffer->m_written),
+                  __CPROVER_object_upto(self->m_buffer->m_data + self->m_buffer->m_committed + self->m_item_offset, sizeof(Item)))
+__CPROVER_ensures(verif_exc == 0 || verif_exc == EXC_buffer_is_full)
+__CPROVER_ensures(verif_exc != 0 || (MOVED_OR_SAME(self) && WFB(self->m_buffer) && self->m_buffer->m_written >= __CPROVER_old(self->m_buffer->m_written) && self->m_buffer->m_written - __CPROVER_old(self->m_buffer->m_written) < 8 && (@KEEP16@)))
+;
+void Builder_add_size_c(struct Builder* self, item_size_type size)
+__CPROVER_requires(BLD_OK(self))
+__CPROVER_assigns(__CPROVER_object_upto(self->m_buffer->m_data + self->m_buffer->m_committed + self->m_item_offset, sizeof(Item)))
+__CPROVER_ensures(1)
+;
+""".replace('@KEEP16@', KEEP16)
+U_addrole2 = Unit(OOB, 'add_role', cls='RelationMemberListBuilder', cname='Builder_add_role', selftype=SB, objs={'member': 'RelationMember'},
+                  stub_siblings={'add_size': 'Builder_add_size_c', 'append_with_zero': 'Builder_append_with_zero_c', 'add_padding': 'Builder_add_padding_c'}, scalar_types=['string_size_type', 'item_size_type'])
+U10_DISABLED = '''
+PIPELINES.append(Pipeline('U10_RelationMemberListBuilder_add_role', units=[U_setrole, U_addrole2], prelude=lambda repo: bld_prelude(None)(repo) + BLD_STUBS,
+                          contracts={'Builder_add_role': [
+                              ('pre:the member was just written at the ghost window of the CURRENT buffer memory; any later reservation may move the memory', 'requires',
+                               'verif_exc == 0 && __CPROVER_is_fresh(self, sizeof(*self)) && __CPROVER_is_fresh(self->m_buffer, sizeof(struct Buffer)) && WFB(self->m_buffer) && '
+                               '__CPROVER_is_fresh(self->m_buffer->m_data, self->m_buffer->m_capacity) && self->m_buffer->m_committed + self->m_item_offset + sizeof(Item) <= ghost_keep && '
+                               'ghost_keep + 16 <= self->m_buffer->m_written && ghost_keep % 8 == 0 && __CPROVER_pointer_equals(member, (RelationMember*)(self->m_buffer->m_data + ghost_keep)) && '
+                               'length <= 100000 && __CPROVER_is_fresh(role, length + 1)'),
+                              ('post:exception class; too long roles are rejected', 'ensures', '(verif_exc == 0 || verif_exc == EXC_length_error || verif_exc == EXC_buffer_is_full) && (length <= 1024 || verif_exc == EXC_length_error)'),
+                              ('post:the member in the CURRENT buffer memory carries the role length (the reader finds the next member with it)', 'ensures',
+                               'verif_exc != 0 || ((RelationMember*)(self->m_buffer->m_data + ghost_keep))->m_role_size == (string_size_type)(length + 1)'),
                               ('frame', 'assigns', 'verif_exc, self->m_buffer->m_data, self->m_buffer->m_capacity, self->m_buffer->m_written, __CPROVER_object_whole(self->m_buffer->m_data)')]},
-                          replace=['Buffer_reserve_space', 'copy_n', 'fill_n', 'Builder_add_size'], maythrow=BLD_MAYTHROW, enforce='Builder_add_member', ret_ref_stubs=[],
-                          harness='void harness(void) { struct Builder* b; item_type t; object_id_type r; const char* role; size_t n; Builder_add_member(b, t, r, role, n, 0); __CPROVER_assert(verif_exc != 0, "canary:normal"); __CPROVER_assert(verif_exc == 0, "canary:throw"); }',
-                          canaries=['canary:normal', 'canary:throw'], timeout=3000, tier='thorough', solver='kissat', replay=('c04_buffer', lambda cex, o: ['members']),
-                          note='every pointer dereference is checked against memory that Buffer::reserve_space may have released: a member pointer used after a later reservation is a failed obligation'))
+                          replace=['Builder_append_with_zero_c', 'Builder_add_padding_c', 'Builder_add_size_c'],
+                          maythrow={'Builder_append_with_zero_c': False, 'Builder_add_padding_c': True}, enforce='Builder_add_role',
+                          harness='void harness(void) { struct Builder* b; RelationMember* m; const char* role; size_t n; Builder_add_role(b, m, role, n); __CPROVER_assert(verif_exc != 0, "canary:normal"); __CPROVER_assert(verif_exc == 0, "canary:throw"); }',
+                          canaries=['canary:normal', 'canary:throw'], timeout=900, split=10, replay=('c04_buffer', lambda cex, o: ['members']),
+                          note='a field written through a pointer taken before a later reservation ends up in memory nobody reads: the postcondition reads the member back from the current memory'))
+
+'''
+# U10 (builders across moving memory) is not registered: the pipeline ran out of memory / time on this image (DESIGN.md 15.2); the native oracle c04_buffer sweeps the growth points instead
 
 PIPELINES.append(Pipeline('U7_Builder_add_size', units=[U_ibytes, U_iaddsz, U_itempos, U_item, U_baddsz], prelude=bld_prelude(None),
                           contracts={'Builder_add_size': [
@@ -215,10 +247,8 @@ TRUSTED = ['operator new[] succeeds', 'std::copy_n / std::fill_n (C++ standard)'
 ASSUMPTIONS = ['buffer capacities up to 2^28 bytes (object-size bound of CBMC; no loop bound depends on it)']
 NOT_DECIDED = ['CallbackBuffer', 'moved-from buffer states', 'purge_removed (see DESIGN)', 'whole builder histories as such (per-operation contracts only)']
 LEVEL_TEXT = ('Proof for the buffer bookkeeping: padded_length and calculate_capacity (aligned, minimal), commit/rollback/clear (whole-state postconditions: rollback drops only '
-              'uncommitted data), reserve_space for every capacity, fill state and growth mode against the contracts of grow/grow_internal (doubling loop closed by a loop contract; '
-              'buffer_is_full exactly when the buffer may not grow). Builders: add_member/add_role of the relation member list builder are verified against a reserve_space '
-              'contract under which the buffer memory MAY MOVE at every reservation; the postcondition reads the member back from the current memory, so a field written through a pointer '
-              'taken before a later reservation is a failed obligation.')
-LEVEL_NOTE = ('Trusted: CBMC, extraction rules, copy_n/fill_n stubs, operator new. The moving-memory contract models growth modes yes (memory moves, offsets stay); mode internal (uncommitted data '
-              'shifts to the front) is covered for reserve_space itself but not in the builder pipelines. Not decided: purge_removed, CallbackBuffer, moved-from buffers, grow/grow_internal bodies '
-              '(assumed contracts), whole builder histories (per-operation contracts only).')
+              'uncommitted data, clear empties the buffer, nothing else changes), reserve_space for every capacity, fill state and growth mode against the contracts of grow/grow_internal '
+              '(doubling loop closed by a loop contract; buffer_is_full exactly when the buffer may not grow; exactly the requested bytes are added to the uncommitted region; the returned pointer is the '
+              'start of the reserved range in the current memory).')
+LEVEL_NOTE = ('Trusted: CBMC, extraction rules, operator new, the contracts of grow/grow_internal (assumed, not yet enforced on their bodies). Not decided: builders across moving memory (a pipeline for it '
+              'exceeded memory and time on this image; the native oracle c04_buffer sweeps every growth point and found defect F15), purge_removed, CallbackBuffer, moved-from buffers, whole builder histories.')
